@@ -510,6 +510,34 @@ pub fn run_case(env: &Env, out: &mut Out, sub: &str, case: &Case, eval: &dyn Fn(
   }
 }
 
+/// A second, backwards pass over a deterministic sample of the cases a sweep has just run. Every answer must be a
+/// function of its arguments alone, so the verdicts must not change when the same cases come in the opposite
+/// order (this is what exposes a memo that is keyed or filled wrongly and only bites "later year first").
+pub struct Reverse {
+  every: usize,
+  n: usize,
+  kept: Vec<(String, Case)>,
+}
+
+impl Reverse {
+  pub fn new(every: usize) -> Self {
+    Reverse { every: every.max(1), n: 0, kept: vec![] }
+  }
+  #[inline]
+  pub fn note(&mut self, sub: &str, case: &Case) {
+    if self.n % self.every == 0 {
+      self.kept.push((sub.to_string(), case.clone()));
+    }
+    self.n += 1;
+  }
+  pub fn run(self, env: &Env, out: &mut Out, eval: &dyn Fn(&Env, &mut Out, &str, &Case)) {
+    for (sub, case) in self.kept.iter().rev() {
+      run_case(env, out, sub, case, eval);
+      out.class("reverse_pass_cases");
+    }
+  }
+}
+
 /// Drive a sub-check with proptest: `cases` generated cases, shrinking on the first violation that no
 /// open known finding covers. Violations covered by a known finding are counted and excluded, so the
 /// search continues behind them.
